@@ -191,14 +191,22 @@ class Driver(object):
         results, eff, obs = self.run_ops(nl, case['ops'])
         fa, exa = self.call(nl, case['a'], results)
         fb, exb = self.call(nl, case['b'], results)
+        if exa[0] == 'noop':            # a reference to a slot the prefix did not get
+            fa, exa = self.call(nl, ['verify'], results)
+        if exb[0] == 'noop':
+            fb, exb = self.call(nl, ['verify'], results)
         out = {}
 
         def wrap(tag, fn):
             def w():
                 out[tag] = self.answer(fn)[0]
             return w
-        codes = IL.code_of(rc.Node.find_slot, rc.Node.allocate_slot, rc.Node.deallocate_slot,
-                           rc.NodeList.find_slots, rc.NodeList.release_slots, rc.NodeList._assert_rr)
+        # NodeList.find_slots / release_slots are wrappers that take the node list's lock around _find_slots /
+        # _release_slots (older trees: the bodies themselves)
+        funcs = [rc.Node.find_slot, rc.Node.allocate_slot, rc.Node.deallocate_slot,
+                 rc.NodeList.find_slots, rc.NodeList.release_slots, rc.NodeList._assert_rr]
+        funcs += [getattr(rc.NodeList, n) for n in ('_find_slots', '_release_slots') if hasattr(rc.NodeList, n)]
+        codes = IL.code_of(*funcs)
         # once the held thread is released both run freely: a long switch interval lets the running thread go on
         # until it blocks or ends, which makes the outcome after the hold point repeatable
         import sys
@@ -216,7 +224,7 @@ class Driver(object):
             if isinstance(x, list) and x and x[0] == 'err':
                 return x
             if x is None:
-                return ['none'] if ex[0] == 'find' else ['ok']
+                return ['none'] if ex[0] in ('find', 'nfind') else ['ok']
             return ['slots', [self.slot_data(s) for s in x]]
         return {'eff': eff, 'obs': obs, 'a': exa, 'b': exb, 'ra': canon('a', exa), 'rb': canon('b', exb),
                 'fin': self.snapshot(nl), 'held': r['held'], 'b_blocked': r['b_blocked'], 'lines': r['lines']}
@@ -542,7 +550,27 @@ FIXED_PAIR = [
     dict(nodes=plain_nodes(2, 4, 0), ops=[['find', RR2, 1], ['find', RR2, 1], ['find', RR2, 1]],
          a=['rel', [[0, 0]]], b=['find', RR2, 3]),
 ]
+
+
+def app_slot(k, cores, lfs=0, names='unique'):
+    return [[[c, o] for c, o in cores], [], lfs, 0, k, 'node%d' % k if names == 'unique' else 'localhost']
+
+
+RR3 = [3, UNIT, 0, UNIT, 0, 0, False]
+# two threads on ONE Node object (Node.find_slot / allocate_slot / deallocate_slot take the node's own lock):
+# NodeList serialises its callers, the node lock is what protects an application that works on nodes directly
+FIXED_NODE_PAIR = [
+    dict(nodes=plain_nodes(1, 4, 1), ops=[], a=['nfind', 0, RR2], b=['nfind', 0, RR2]),
+    dict(nodes=plain_nodes(2, 3, 1, names='same'), ops=[['find', RR1, 1]], a=['nfind', 0, RRH], b=['nfind', 0, RR1]),
+    dict(nodes=plain_nodes(1, 4, 0), ops=[], a=['nfind', 0, RR2], b=['nalloc', 0, app_slot(0, [[0, UNIT], [2, 32]], 10)]),
+    dict(nodes=plain_nodes(1, 2, 0), ops=[], a=['nalloc', 0, app_slot(0, [[0, 48]])], b=['nalloc', 0, app_slot(0, [[0, 48]])]),
+    dict(nodes=plain_nodes(1, 4, 0), ops=[['nfind', 0, RR2]], a=['ndealloc', 0, [0, 0]], b=['nfind', 0, RR3]),
+    dict(nodes=plain_nodes(1, 4, 0), ops=[['nfind', 0, RR2]], a=['nfind', 0, RR3], b=['ndealloc', 0, [0, 0]]),
+    # a NodeList caller against a direct Node caller (judged on the occupancy clauses only)
+    dict(nodes=plain_nodes(2, 4, 0), ops=[], a=['find', RR2, 2], b=['nfind', 0, RR2]),
+]
 PAIR_KS = 120
+NODE_PAIR_KS = 60
 
 
 def gen_pair(rng):
@@ -559,6 +587,25 @@ def gen_pair(rng):
             finds.remove(j)
             return ['rel', [[j, i] for i in range(max(0, ops[j][2]))]]
         return gen_find(rng, nodes)
+
+    def node_one(k):
+        x = rng.random()
+        if x < 0.6:
+            q = gen_rr(rng, nodes)
+            return ['nfind', k, q]
+        nd = nodes[k]
+        cs = sorted(rng.sample(range(len(nd['cores'])), rng.randint(1, 2)))
+        return ['nalloc', k, [[[c, rng.choice([UNIT, 32, 48])] for c in cs], [], rng.choice([0, 10]), 0,
+                              nd['index'], nd['name']]]
+    if rng.random() < 0.5:
+        # both threads work on the same Node object directly
+        k = rng.randrange(len(nodes))
+        ops = [o for o in ops if rng.random() < 0.5]
+        a, b = node_one(k), node_one(k)
+        if rng.random() < 0.3:
+            ops.append(['nfind', k, gen_rr(rng, nodes)])
+            a = ['ndealloc', k, [len(ops) - 1, 0]]
+        return {'kind': 'pair', 'nodes': nodes, 'verify': True, 'ops': ops, 'a': a, 'b': b}
     return {'kind': 'pair', 'nodes': nodes, 'verify': True, 'ops': ops, 'a': one(), 'b': one()}
 
 
@@ -631,6 +678,9 @@ class AppSlots(Prop):
             yield c
         for c in FIXED_PAIR:
             for k in range(0, PAIR_KS + 1):
+                yield dict(c, kind='pair', verify=True, k=k)
+        for c in FIXED_NODE_PAIR:
+            for k in range(0, NODE_PAIR_KS + 1):
                 yield dict(c, kind='pair', verify=True, k=k)
         for i in range(150 if quick else 6000):
             r = rng.random()
@@ -706,6 +756,11 @@ class AppSlots(Prop):
         row = '(pair_row %s %s %s %s %s %s %s %s %s)' % (ns0, ver, ops, c_obs(obs['obs']), c_op(obs['a']),
                                                         c_op(obs['b']), c_res(obs['ra']), c_res(obs['rb']),
                                                         c_nl(obs['fin']))
+        levels = set('list' if o[0] in ('find', 'rel', 'verify') else 'node' for o in (obs['a'], obs['b']))
+        if len(levels) == 2:
+            # a NodeList call against a direct Node call: the node list's lock does not cover the direct caller, a
+            # find_slots for several slots is then atomic per node only -- occupancy clauses judged, not the order
+            row = '(firstn 5 %s ++ [true])' % row
         if obs['fin'].get('torn'):
             # __last_failed_rr__ set and __last_failed_n__ None (or the reverse): no sequential run ends like that
             row = '(firstn 5 %s ++ [false])' % row
